@@ -520,6 +520,35 @@ func checkC08(p *Prog, r *Report) {
 	if f := p.Fn("candidateBase.recvLoop"); r.Anchor("candidateBase.recvLoop", f != nil) {
 		r.Check(deferCloses(f, func(e ast.Expr) bool { return p.IsField(e, "candidateBase.closedCh") }), "receive loop closes closedCh on every exit", p.Pos(f.Body.Pos()), "defer close(c.closedCh) before any return", "the receive loop can exit without closing closedCh: candidate close (inside the loop) waits forever")
 	}
+
+	// ---- R8.9 the candidate receive loop ends on every read error --------------------------------------
+	r.Rule("R8.9", "candidateBase.recvLoop reads again only after a successful read: every read error (the deadline kick of abortIO included) ends the loop, so close() never waits for a reader that swallowed its wake-up.", 1)
+	if f := p.Fn("candidateBase.recvLoop"); r.Anchor("candidateBase.recvLoop", f != nil) {
+		isRead := func(c *ast.CallExpr) bool {
+			switch p.CalleeName(c) {
+			case "net.PacketConn.ReadFrom", "ice.AddrPortReaderWriter.ReadFromAddrPort":
+				return true
+			}
+			return false
+		}
+		n := 0
+		walkBody(f, func(x ast.Node) bool {
+			if c, ok := x.(*ast.CallExpr); ok && isRead(c) {
+				n++
+			}
+			return true
+		})
+		bad := p.rereadWithoutSuccess(f, isRead)
+		pos := p.Pos(f.Body.Pos())
+		if bad != nil {
+			pos = p.Pos(bad.Pos())
+		}
+		r.Check(bad == nil && n > 0, "recvLoop: a read error ends the loop", pos, "the read repeats only after err == nil", "the receive loop can read again after a failed read: the immediate deadline that abortIO uses to wake a blocked reader is swallowed, the loop never ends and Close / Restart / Failed wait for it forever")
+	}
+
+	// ---- R8.10 relay teardown hook ---------------------------------------------------------------------
+	r.Rule("R8.10", "Closing a relay candidate runs its onClose hook (TURN client and control socket, whose goroutines would otherwise outlive the agent) on every path, whatever the base close returned.", 1)
+	checkRelayCloseHook(p, r)
 }
 
 // classifyGoroutine decides how the goroutine body terminates.
